@@ -130,6 +130,13 @@ def oracle_forest(case, ctx):
     n, t = case["n_train"], case["t"]
     X3 = panelpool.panel_values(case["seed"], n, 1, t)
     Xa = panelpool.panel_values(case["seed"] + 3, case["n_apply"], 1, t)
+    level = case.get("level", 0.0)
+    if level:
+        # series whose level is large compared with their variation: the summary features
+        # are still those of the data (computed in double precision)
+        X3 = panelpool.panel_values(case["seed"], n, 1, t, kind="noise") + level
+        Xa = panelpool.panel_values(case["seed"] + 3, case["n_apply"], 1, t, kind="noise") + level
+        ctx.label("level_%g" % level)
     ctx.mark_nontrivial(True)
     discs = []
     if case["which"] == "classifier":
@@ -238,10 +245,11 @@ def wf_cases(draw):
 def forest_cases(draw):
     return {
         "which": draw(st.sampled_from(["classifier", "classifier", "regressor"])),
-        "n_train": draw(st.integers(6, 14)), "n_apply": draw(st.integers(1, 5)), "t": draw(st.integers(8, 40)),
+        "n_train": draw(st.integers(6, 14)), "n_apply": draw(st.integers(1, 8)), "t": draw(st.integers(8, 40)),
         "n_classes": draw(st.integers(2, 3)), "label_kind": draw(st.sampled_from(["int", "int_gap", "str"])),
         "n_estimators": draw(st.integers(1, 6)), "rs": draw(st.integers(0, 1000)), "seed": draw(st.integers(0, 10 ** 6)),
         "n_jobs": draw(st.sampled_from([1, 1, 2])),
+        "level": draw(st.sampled_from([0.0, 0.0, 1e3, 1e6, 1e7])),
     }
 
 
